@@ -52,7 +52,9 @@ _op(".myop.", "dbin", 2, 1, 1, 2)
 _op(".inv.", "dun", 1, 11, None, 12)
 OPMAP = {o[0]: o for o in OPS}
 REPS = ["**", "*", "+", "u-", "//", "==", ".le.", ".not.", ".and.", ".or.", ".eqv.", ".myop.", ".inv.", "/"]
-LEAVES = ["a", "a(i)", "f(x, y)", "a%b", "1.0e-3", "2.5D+4", "3", ".true.", "'s'", "(/1, 2/)"]
+# n2d, x1e, u3D: NAMES that end like the mantissa + exponent letter of a real literal
+# (round 8: a look-behind on the sign pattern took the '-' of 'n2d-7' for an exponent sign)
+LEAVES = ["a", "a(i)", "f(x, y)", "a%b", "1.0e-3", "2.5D+4", "3", ".true.", "'s'", "(/1, 2/)", "n2d", "x1e", "u3D"]
 NAMES = ["a", "b", "c", "d", "e", "g"]
 
 
@@ -292,6 +294,8 @@ def gen(task):
                         yield fill(t, leaves)
                 # exponent literals at every position together
                 yield fill(t, ["1.0e-3", "2.5D+4", "3.e5", ".5"][:nl] if nl <= 4 else NAMES[:nl])
+                # literal-lookalike names at every position together
+                yield fill(t, ["n2d", "x1e", "e2", "d1"][:nl] if nl <= 4 else NAMES[:nl])
         # collisions: the SAME literal several times (placeholder numbering in
         # string_replace_map), a different one first
         for k in range(2, n + 2):
